@@ -1,4 +1,5 @@
 import OnlVerif.Lemmas.PortKDefs
+import OnlVerif.Lemmas.PortKAttr
 /-!
 # The Port on the kernel model: what each kernel operation of the program does
 
@@ -107,6 +108,10 @@ theorem push_setIfInBounds_size {α} (a : Array α) (x y : α) :
   · have h' : ¬ i = a.size := fun hh => h hh.symm
     simp [h, h']
 
+theorem push_setIfInBounds_size' {α} (a : Array α) (n : Nat) (x y : α) (h : n = a.size) :
+    (a.push x).setIfInBounds n y = a.push y := by
+  subst h; exact push_setIfInBounds_size a x y
+
 theorem getD0_set (a : Array ResRec) (x : ResRec) (h : 0 < a.size) : (a.setIfInBounds 0 x).getD 0 default = x := by
   rw [getD_setIfInBounds]; simp [h]
 
@@ -164,19 +169,22 @@ theorem doCall_sget_miss (s : KS) (self : EvId) (hsz : 0 < s.resources.size)
   simp [doCall, hrr, mkGet, KState.newLabelled, enqGet, KState.setGetQ, KState.setRes, KState.res,
     triggerGet, scanGet, doGet, getItem, KState.triggered, KState.ev, getD0_set, hsz, getD_push]
 
-theorem doCall_sget_hit (s : KS) (self : EvId) (i : Int) (is : List Int) (hsz : 0 < s.resources.size)
-    (hk : (s.res 0).kind = .store) (hq : (s.res 0).getQ = []) (hi : (s.res 0).items = i :: is) :
+theorem doCall_sget_hit (s : KS) (self : EvId) (hsz : 0 < s.resources.size)
+    (hk : (s.res 0).kind = .store) (hq : (s.res 0).getQ = []) (hi : (s.res 0).items ≠ []) :
     doCall s self (.sget 0 0) =
       ({ s with
-          events := s.events.push { kind := .get 0, cbs := some [.trigPut 0], out := some (.ok (.int i)), label := s.nlabel + 1,
-                                     req := some { res := 0, time := s.now, proc := s.active } }
+          events := s.events.push { kind := .get 0, cbs := some [.trigPut 0], out := some (.ok (.int ((s.res 0).items.headD 0))),
+                                     label := s.nlabel + 1, req := some { res := 0, time := s.now, proc := s.active } }
           nlabel := s.nlabel + 1
-          resources := s.resources.setIfInBounds 0 { s.res 0 with items := is }
+          resources := s.resources.setIfInBounds 0 { s.res 0 with items := (s.res 0).items.tail }
           agenda := { time := s.now, prio := NORMAL, eid := s.eid, ev := s.events.size } :: s.agenda
           eid := s.eid + 1 }, .ev s.events.size) := by
   rcases hrr : s.resources.getD 0 default with ⟨k, c, pq, gq, us, lv, its⟩
   simp only [KState.res, hrr] at hk hq hi
-  subst hk hq hi
+  subst hk hq
+  cases its with
+  | nil => exact absurd rfl hi
+  | cons i is =>
   simp [doCall, hrr, mkGet, KState.newLabelled, enqGet, KState.setGetQ, KState.setRes, KState.res,
     triggerGet, scanGet, doGet, getItem, takeOut, KState.setItems, KState.trigger, KState.setOut, KState.schedule,
     KState.setEv, KState.triggered, KState.ev, dropGetQ, getD0_set, hsz, getD_push, getD_setIfInBounds, zero_eq', push_setIfInBounds_size]
@@ -206,5 +214,12 @@ theorem triggerGet_hand (s : KS) (g : EvId) (i : Int) (is : List Int) (hsz : 0 <
   simp [hrr, KState.setGetQ, KState.setRes, KState.res,
     triggerGet, scanGet, doGet, getItem, takeOut, KState.setItems, KState.trigger, KState.setOut, KState.schedule,
     KState.setEv, KState.triggered, KState.ev, dropGetQ, getD0_set, hsz, hgs, getD_push, getD_setIfInBounds, zero_eq', push_setIfInBounds_size]
+
+attribute [portk] deliverSt resumeArg body portDone portServe portPut srcLoop loadInt portLoop runBurst noteErr
+  KState.emit afterBurst register KState.processed KState.setProc KState.addCb KState.setEv KState.ev KState.res
+  openEvent closeEvent finishProc KState.trigger KState.setOut KState.schedule runCb List.foldl
+  cByteSize cReceived cBusy cBusySize storeId portProc srcProc storeRec
+  doCall_load doCall_store doCall_log doCall_timeout doCall_sput doCall_sget_miss doCall_sget_hit
+  lookup_store plookup_set getD_push getD_setIfInBounds getD0_set push_setIfInBounds_size push_setIfInBounds_size' zero_eq'
 
 end PortK
